@@ -28,6 +28,7 @@ pub fn prop() -> Prop {
       Part { name: "histories", run: run_random, tape_len: 32, quick_cases: 800_000, thorough_cases: 16_000_000, exhaustive_depth: None, exhaustive_budget: 0, exh_quick: false },
       Part { name: "short", run: run_short, tape_len: 16, quick_cases: 0, thorough_cases: 0, exhaustive_depth: Some(10), exhaustive_budget: 10_000_000, exh_quick: true },
       Part { name: "threads", run: run_threads, tape_len: 24, quick_cases: 6_000, thorough_cases: 400_000, exhaustive_depth: None, exhaustive_budget: 0, exh_quick: false },
+      Part { name: "pipeline", run: run_pipeline, tape_len: 64, quick_cases: 500_000, thorough_cases: 10_000_000, exhaustive_depth: None, exhaustive_budget: 0, exh_quick: false },
     ],
   }
 }
@@ -580,4 +581,165 @@ fn run_threads(c: &mut dyn Choices, ctx: &Ctx) -> Outcome {
     None => (Verdict::Ok, None),
   };
   Outcome { verdict, nontrivial: nt, hash: hash_of(&(items, error, exhaustive, c.record().to_vec())), labels, notes: vec![], desc }
+}
+
+// ------------------------------------------------ complete_status inside a pipeline ------
+
+/// `source . (0..2 C03 operators) . complete_status() . (0..2 C03 operators, half of the cases ending early)` on a cold
+/// (synchronous) or hot source; flags sampled after subscription and after every script step
+fn gen_pipeline(c: &mut dyn Choices) -> (crate::ast::PCase, crate::ast::Node) {
+  use crate::ast::*;
+  use crate::value::*;
+  let kind = c.pick(3);
+  let (src, script, len_hint) = match kind {
+    0 => {
+      let s = gen_cold_src(c, 4, 3);
+      let l = match &s {
+        Src::FromIter(v) => v.len(),
+        Src::Repeat(_, n) => *n,
+        Src::Create(s) => s.len(),
+        _ => 1,
+      };
+      (s, vec![], l)
+    }
+    k => {
+      let n = c.pick(5);
+      let mut sc: Vec<Ev> = (0..n).map(|_| Ev::N(gen_v(c, 3))).collect();
+      match c.pick(3) {
+        0 => {}
+        1 => sc.push(Ev::C),
+        _ => sc.push(Ev::Er(gen_e(c))),
+      }
+      if sc.last().map_or(false, |e| e.is_terminal()) {
+        for _ in 0..c.pick(3) {
+          sc.push(match c.pick(4) {
+            0 => Ev::C,
+            1 => Ev::Er(gen_e(c)),
+            _ => Ev::N(gen_v(c, 3)),
+          });
+        }
+      }
+      (if k == 1 { Src::Hot(0) } else { Src::HotCreate(0) }, sc, n)
+    }
+  };
+  let mut below = Node::Src(src);
+  for _ in 0..c.pick(3) {
+    below = Node::un(gen_un_c03(c, len_hint, 3), below);
+  }
+  let mut node = Node::un(Un::CompleteStatus, below.clone());
+  let n_above = c.pick(3);
+  for i in 0..n_above {
+    let op = if i == 0 && c.flag() {
+      // an operator that can end the stream before its source does
+      match c.pick(6) {
+        0 => Un::Take(c.pick(len_hint + 2)),
+        1 => Un::First,
+        2 => Un::TakeWhile(gen_pred(c)),
+        3 => Un::TakeWhileInclusive(gen_pred(c)),
+        4 => Un::ElementAt(c.pick(len_hint + 1)),
+        _ => Un::Contains(gen_v(c, 3)),
+      }
+    } else {
+      gen_un_c03(c, len_hint, 3)
+    };
+    node = Node::un(op, node);
+  }
+  let kinds = vec![if kind == 2 { IKind::Create } else { IKind::Subject }];
+  let script = script.into_iter().map(|e| Step::Emit(0, e)).collect();
+  (PCase { node, kinds, script, mode: SchedMode::Fifo, threads: c.flag() }, below)
+}
+
+fn run_pipeline(c: &mut dyn Choices, ctx: &Ctx) -> Outcome {
+  use crate::ast::*;
+  use crate::model::{self, Opts};
+  use crate::value::*;
+  let (case, below) = gen_pipeline(c);
+  let inputs = crate::props::c04::inputs_of(&case);
+  let res = crate::common::run_pcase(&case, true);
+  let mut labels: Vec<&'static str> = vec![];
+  let cold = case.script.is_empty();
+  labels.push(if cold { "pipeline:cold-source" } else { "pipeline:hot-source" });
+  let mut verdict = Verdict::Ok;
+  let mut nt = false;
+  let mut discard = false;
+  match &res {
+    Err(m) => verdict = Verdict::Violation { sig: "panic:pipeline".into(), detail: format!("pipeline panicked: {m}") },
+    Ok(tr) => {
+      let act = crate::props::c04::trace_tl(tr);
+      // the reading (take(0), skip_last) under which the reference reproduces the delivered trace fixes the upstream timeline
+      let mut up = None;
+      'o: for sl in [false, true] {
+        for t0 in 0..3 {
+          let o = Opts { skip_last_lazy: sl, take0_immediate: t0 == 1, take0_at_first_item: t0 == 2, ..Opts::default() };
+          if model::eval(&case.node, &inputs, o).map_or(false, |e| e == act) {
+            up = model::eval(&below, &inputs, o);
+            break 'o;
+          }
+        }
+      }
+      match up {
+        None => discard = true, // a difference in the delivered sequence is C03's business, not this part's
+        Some(up) => {
+          let term_up = up.last().filter(|(_, e)| e.is_terminal()).cloned();
+          let out_term = act.last().filter(|(_, e)| e.is_terminal()).cloned();
+          // the downstream ended strictly before the step of the upstream terminal: a pruning source (Subject) may never deliver it
+          let ended_before = match (&term_up, &out_term) {
+            (Some((st, _)), Some((so, _))) => so < st,
+            _ => false,
+          };
+          let ended_early = match (&term_up, &out_term) {
+            (Some((st, _)), Some((so, _))) => so <= st && act.len() < up.len() + 1,
+            _ => false,
+          };
+          if term_up.is_some() {
+            labels.push("pipeline:source-terminated");
+            nt = true;
+          }
+          if ended_before {
+            labels.push("pipeline:downstream-ended-first");
+          } else if ended_early && term_up.is_some() {
+            labels.push("pipeline:downstream-ended-same-step");
+          }
+          for (idx, flags) in tr.status_after_step.iter().enumerate() {
+            let k: i64 = idx as i64 - 1; // -1 = after subscription
+            let Some(&(cf, ef)) = flags.first() else { continue };
+            let due = term_up.as_ref().filter(|(st, _)| *st <= k);
+            let bad = if cf && ef {
+              Some("both-flags")
+            } else {
+              match due {
+                None if cf || ef => Some("reported-without-terminal"),
+                Some((_, Ev::C)) if ef => Some("error-reported-for-completion"),
+                Some((_, Ev::Er(_))) if cf => Some("completion-reported-for-error"),
+                Some((_, Ev::C)) if !cf && !ended_before => Some("completion-not-reported"),
+                Some((_, Ev::Er(_))) if !ef && !ended_before => Some("error-not-reported"),
+                _ => None,
+              }
+            };
+            if let Some(b) = bad {
+              verdict = Verdict::Violation {
+                sig: format!("pipeline-status:{b}"),
+                detail: format!("after step {k}: is_completed={cf} error_occur={ef}; upstream of complete_status: [{}]; delivered: [{}]", up.iter().map(|(s, e)| format!("{}@{}", ev_short(e), s)).collect::<Vec<_>>().join(" "), tr.short()),
+              };
+              break;
+            }
+          }
+        }
+      }
+    }
+  }
+  if discard {
+    return Outcome { labels: vec!["pipeline:sequence-differs(C03)"], ..Outcome::discard() };
+  }
+  let desc = if ctx.want_desc || matches!(verdict, Verdict::Violation { .. }) {
+    let mut j = crate::props::c01::pcase_json(&case);
+    if let Ok(tr) = &res {
+      j["delivered"] = json!(tr.short());
+      j["status_after_step"] = json!(tr.status_after_step.iter().map(|f| f.first().map(|(a, b)| format!("{}{}", if *a { "C" } else { "-" }, if *b { "E" } else { "-" })).unwrap_or_default()).collect::<Vec<_>>().join(" "));
+    }
+    Some(j)
+  } else {
+    None
+  };
+  Outcome { verdict, nontrivial: nt, hash: hash_of(&case), labels, notes: vec![], desc }
 }
